@@ -3231,7 +3231,9 @@ class UTPM(Ring, RawAlgorithmsMixIn):
         tc = numpy.zeros((D, P, rowsums[-1],colsums[-1]), dtype=dtype)
         for r in range(Rb):
             for c in range(Cb):
-                tc[:,:,rowsums[r]:rowsums[r+1], colsums[c]:colsums[c+1]] = in_X[r,c].data[:,:,:,:]
+                # a block of lower degree has zero higher coefficients (a single direction is used for all directions)
+                Db = in_X[r,c].data.shape[0]
+                tc[:Db,:,rowsums[r]:rowsums[r+1], colsums[c]:colsums[c+1]] = in_X[r,c].data[:,:,:,:]
 
         return UTPM(tc)
 
